@@ -139,8 +139,13 @@ func (g *gen) call(x *ssa.Call, st State, reach string) string {
 	}
 	// unknown callee: result havoc, pointees of pointer arguments havoc, everything else framed
 	g.ctx.note("unknown call (result havoc, frame assumed): " + name)
-	g.ctx.assumed["external call assumed not to touch modelled heap except through pointer arguments: "+name] = true
-	g.havocPointees(args, argTypes, st, reach, name)
+	if name == "<dynamic>" {
+		// stored callbacks / function values: external, assumed not to write the modelled heap
+		g.ctx.assumed["calls through function values (callbacks) are assumed not to modify the modelled heap"] = true
+	} else {
+		g.ctx.assumed["external call assumed not to touch modelled heap except through pointer arguments: "+name] = true
+		g.havocPointees(args, argTypes, st, reach, name)
+	}
 	if x.Type() != nil && !isEmptyTuple(x.Type()) {
 		g.vals[x] = g.havocVal(x.Name(), x.Type(), st, reach)
 	}
@@ -473,6 +478,9 @@ func (g *gen) copyCall(x *ssa.Call, st State, reach string) {
 
 func (g *gen) callContract(x *ssa.Call, fc *FuncContract, name string, args []Val, argTypes []types.Type, st State, reach string) string {
 	nth := g.count("call." + name)
+	for i := range args {
+		args[i] = g.materialise(args[i], st)
+	}
 	pre := st.clone()
 	// environment: parameter names → argument values
 	bind := func(e *env) {
